@@ -143,10 +143,12 @@ def _gen_ranges(rng: random.Random, cfg: GenCfg, body):
     return [plain(n) for n in sorted(set(r))]
 
 
-def _gen(rng: random.Random, cfg: GenCfg, depth: int, bound: frozenset, in_den: bool):
+def _gen(rng: random.Random, cfg: GenCfg, depth: int, bound: frozenset, in_den: bool, top: bool = False):
     w = dict(cfg.weights)
     if depth <= 1:
         w.update({"prod": 0, "sum": 0, "frac": 0})
+    elif top and rng.random() < 0.85:      # composite root most of the time
+        w.update({"leaf": 0, "one": 0, "zero": 0})
     if not cfg.allow_zero or (in_den and not cfg.zero_in_denominators):
         w["zero"] = 0
     if cfg.allow_q and not cfg.well_scoped:
@@ -188,7 +190,7 @@ def _gen(rng: random.Random, cfg: GenCfg, depth: int, bound: frozenset, in_den: 
 def gen_expr(rng: random.Random, cfg: GenCfg | None = None):
     cfg = cfg or GenCfg()
     for _ in range(50):
-        e = _gen(rng, cfg, max(1, cfg.max_depth - rng.choice([0, 0, 0, 1, 1, 2])), frozenset(), False)
+        e = _gen(rng, cfg, max(1, cfg.max_depth - rng.choice([0, 0, 0, 1, 1, 2])), frozenset(), False, top=True)
         if not cfg.well_scoped or well_scoped(e):
             return e
     return _gen_leaf(rng, GenCfg(n_names=cfg.n_names, p_star=0, p_world=0), frozenset())
